@@ -53,7 +53,7 @@ top:
 				}
 			}
 		}
-		result = tv
+		result = dupLiteral(tv)
 	case jp.Expr:
 		if 0 < len(tv) {
 			if _, ok := tv[0].(jp.At); ok {
@@ -71,7 +71,7 @@ top:
 		}
 		result = tv
 	default:
-		result = value
+		result = dupLiteral(value)
 	}
 	return
 }
